@@ -132,8 +132,8 @@ structure State where
   cutDone : Bool := false
   /-- ghost: the data port was severed (see `Label.sever`) -/
   severed : Bool := false
-  /-- ghost: nothing accepted has been lost so far (no drop with a chunk in flight, no failed
-  hand-over, no fault, receiver not dropped) -/
+  /-- ghost: no accepted byte has been lost so far (no drop with a chunk in flight, no failed or
+  swallowed hand-over, nothing lost in transit) -/
   lossless : Bool := true
 deriving Repr, DecidableEq
 
@@ -193,7 +193,8 @@ def closeData (c : Chan) : Chan :=
   | _ => c
 
 /-- `Sender::poll_complete`: drive the `sending` future, i.e. hand the chunk in flight to the port.
-(The `connecting` future only delays; it has no effect on the state.) -/
+(The `connecting` future only delays; it has no effect on the state.)  A port that is no longer
+open towards the receiver (connection cut or severed, not yet noticed) swallows the message. -/
 def txComplete (t : Tx) (c : Chan) : Option Err × Tx × Chan :=
   match t.sending with
   | none => (none, t, c)
@@ -202,7 +203,13 @@ def txComplete (t : Tx) (c : Chan) : Option Err × Tx × Chan :=
       -- the future resolves to an error and drops the `bin::Sender` it owns
       (some .connReset, { t with sending := none, failed := true, binOpen := false }, closeData c)
     else
-      (none, { t with sending := none }, { c with data := c.data ++ [m] })
+      match c.dataEnd with
+      | .open => (none, { t with sending := none }, { c with data := c.data ++ [m] })
+      | _ => (none, { t with sending := none }, c)
+
+/-- The hand-over done by `txComplete` loses nothing. -/
+def handOverOk (t : Tx) (c : Chan) : Bool :=
+  t.sending.isNone || (c.dataEnd == .open && !c.txNoticed)
 
 /-- Result of `poll_write`. -/
 inductive WRes where
@@ -210,49 +217,58 @@ inductive WRes where
   | err (e : Err)
 deriving Repr, DecidableEq
 
+/-- `poll_write` after `poll_complete` succeeded (the channel is not touched). -/
+def writeCore (chunk : Nat) (bs : Bytes) (t : Tx) : WRes × Tx :=
+  if !t.binOpen then (.err .brokenPipe, t)
+  else if bs.isEmpty then (.ok 0, t)
+  else
+    match t.mode with
+    | .known e =>
+      if t.bytesWritten ≥ e then (.err .writeZero, t)
+      else
+        let n := min (min bs.length (e - t.bytesWritten)) chunk
+        (.ok n, { t with bytesWritten := t.bytesWritten + n, sending := some (bs.take n) })
+    | .unknown =>
+      let n := min bs.length chunk
+      (.ok n, { t with bytesWritten := t.bytesWritten + n, sending := some (bs.take n) })
+
 /-- `poll_write`. -/
 def pollWrite (chunk : Nat) (bs : Bytes) (t : Tx) (c : Chan) : WRes × Tx × Chan :=
   match txComplete t c with
   | (some e, t', c') => (.err e, t', c')
-  | (none, t', c') =>
-    if !t'.binOpen then (.err .brokenPipe, t', c')
-    else if bs.isEmpty then (.ok 0, t', c')
-    else
-      match t'.mode with
-      | .known e =>
-        if t'.bytesWritten ≥ e then (.err .writeZero, t', c')
-        else
-          let n := min (min bs.length (e - t'.bytesWritten)) chunk
-          (.ok n, { t' with bytesWritten := t'.bytesWritten + n, sending := some (bs.take n) }, c')
-      | .unknown =>
-        let n := min bs.length chunk
-        (.ok n, { t' with bytesWritten := t'.bytesWritten + n, sending := some (bs.take n) }, c')
+  | (none, t', c') => ((writeCore chunk bs t').1, (writeCore chunk bs t').2, c')
 
 /-- `poll_flush`. -/
 def pollFlush (t : Tx) (c : Chan) : Option Err × Tx × Chan := txComplete t c
 
-/-- `poll_shutdown`: complete, drop the `bin::Sender`, then verify (sized) or announce (unsized)
-the total; the mode becomes `Known(bytes_written)` in every case. -/
+/-- `poll_shutdown` after `poll_complete` succeeded: drop the `bin::Sender`, then verify (sized) or
+announce (unsized) the total; the mode becomes `Known(bytes_written)` in every case. -/
+def shutdownCore (t : Tx) (c : Chan) : Option Err × Tx × Chan :=
+  let c1 := closeData c
+  let t1 := { t with binOpen := false, mode := .known t.bytesWritten }
+  match t.mode with
+  | .known e => if t.bytesWritten = e then (none, t1, c1) else (some .unexpectedEof, t1, c1)
+  | .unknown =>
+    (none, t1, match c1.size with
+               | .pending => { c1 with size := .sent t.bytesWritten }
+               | _ => c1)
+
+/-- `poll_shutdown`. -/
 def pollShutdown (t : Tx) (c : Chan) : Option Err × Tx × Chan :=
   match txComplete t c with
   | (some e, t', c') => (some e, t', c')
-  | (none, t', c') =>
-    let c1 := closeData c'
-    let t1 := { t' with binOpen := false, mode := .known t'.bytesWritten }
-    match t'.mode with
-    | .known e => if t'.bytesWritten = e then (none, t1, c1) else (some .unexpectedEof, t1, c1)
-    | .unknown =>
-      (none, t1, { c1 with size := match c1.size with
-                                     | .pending => .sent t'.bytesWritten
-                                     | x => x })
+  | (none, t', c') => shutdownCore t' c'
 
 /-- Dropping the `Sender`: the chunk in flight (its future was never polled) is discarded, the
 port and, in unsized mode, the size oneshot are dropped. -/
 def dropTxChan (t : Tx) (c : Chan) : Chan :=
   let c1 := closeData c
-  match t.mode, c1.size with
-  | .unknown, .pending => { c1 with size := .dropped }
-  | _, _ => c1
+  match t.mode with
+  | .known _ => c1
+  | .unknown =>
+    match c1.size with
+    | .pending => { c1 with size := .dropped }
+    | _ => c1
 
 /-! ### receiver operations -/
 
@@ -362,24 +378,26 @@ def stepOut (cfg : Cfg) (s : State) : Label → Option (Out × State)
   | .write bs =>
     if txUsable s.tx then
       match pollWrite cfg.chunk bs s.tx s.ch with
-      | (.ok n, t, c) => some (.wrote n, { s with tx := t, ch := c, accepted := s.accepted ++ bs.take n })
-      | (.err e, t, c) => some (.txErr e, { s with tx := t, ch := c, lossless := s.lossless && !t.failed })
+      | (.ok n, t, c) =>
+        some (.wrote n, { s with tx := t, ch := c, accepted := s.accepted ++ bs.take n,
+                                 lossless := s.lossless && handOverOk s.tx s.ch })
+      | (.err e, t, c) => some (.txErr e, { s with tx := t, ch := c, lossless := s.lossless && handOverOk s.tx s.ch })
     else none
   | .flush =>
     if txUsable s.tx then
       match pollFlush s.tx s.ch with
-      | (none, t, c) => some (.done, { s with tx := t, ch := c })
-      | (some e, t, c) => some (.txErr e, { s with tx := t, ch := c, lossless := false })
+      | (none, t, c) => some (.done, { s with tx := t, ch := c, lossless := s.lossless && handOverOk s.tx s.ch })
+      | (some e, t, c) => some (.txErr e, { s with tx := t, ch := c, lossless := s.lossless && handOverOk s.tx s.ch })
     else none
   | .shutdown =>
     if txUsable s.tx then
       match pollShutdown s.tx s.ch with
       | (none, t, c) =>
-        some (.done, { s with tx := t, ch := c,
+        some (.done, { s with tx := t, ch := c, lossless := s.lossless && handOverOk s.tx s.ch,
                               announced := match s.tx.mode with
                                            | .unknown => some t.bytesWritten
                                            | .known _ => s.announced })
-      | (some e, t, c) => some (.txErr e, { s with tx := t, ch := c, lossless := s.lossless && !t.failed })
+      | (some e, t, c) => some (.txErr e, { s with tx := t, ch := c, lossless := s.lossless && handOverOk s.tx s.ch })
     else none
   | .dropTx =>
     if s.tx.alive then
@@ -397,13 +415,12 @@ def stepOut (cfg : Cfg) (s : State) : Label → Option (Out × State)
     else none
   | .dropRx =>
     if s.rx.alive then
-      some (.none, { s with rx := { s.rx with alive := false }, ch := { s.ch with rxGone := true },
-                            lossless := false })
+      some (.none, { s with rx := { s.rx with alive := false }, ch := { s.ch with rxGone := true } })
     else none
   | .cut =>
     if s.cutDone then none
     else
-      some (.none, { s with cutDone := true, lossless := false,
+      some (.none, { s with cutDone := true,
                             ch := { s.ch with dataEnd := match s.ch.dataEnd with
                                                          | .open => .broken
                                                          | x => x,
@@ -420,7 +437,7 @@ def stepOut (cfg : Cfg) (s : State) : Label → Option (Out × State)
       | .closed => some (.none, { s with ch := { s.ch with dataEnd := .broken } })
       | .broken =>
         if s.ch.data.isEmpty then none
-        else some (.none, { s with ch := { s.ch with data := s.ch.data.dropLast } })
+        else some (.none, { s with lossless := false, ch := { s.ch with data := s.ch.data.dropLast } })
       | .open => none
     else none
   | .loseSize =>
